@@ -49,6 +49,22 @@ def mk' (a d : α) : Dual α := ⟨a, d⟩
 def const [Zero α] (a : α) : Dual α := ⟨a, 0⟩
 end Dual
 
+/-! ### Memoisation that survives the compiler
+`LinOp.tab` returns a FUNCTION; the compiler eta-expands function-valued definitions, so the table is rebuilt on every
+access.  Here the table is a DATA value (`memoV`, bound by `let` inside a function whose result is data) and `getV` reads it. -/
+
+@[noinline] def memoV {α : Type} {n m : Nat} (f : Fin n → Fin m → α) : Vector (Vector α m) n :=
+  Vector.ofFn fun i => Vector.ofFn (f i)
+
+def getV {α : Type} {n m : Nat} (v : Vector (Vector α m) n) : Mat α n m := fun i j => (v[i.1]'i.2)[j.1]'j.2
+
+@[simp] theorem getV_memoV {α : Type} {n m : Nat} (f : Fin n → Fin m → α) : getV (memoV f) = f := by
+  funext i j; simp [getV, memoV]
+
+/-- Matrix product as a plain index function (no table). -/
+def mmul {α : Type} [Add α] [Mul α] [Zero α] {n k m : Nat} (A : Mat α n k) (B : Mat α k m) : Mat α n m :=
+  fun i j => sumFin k fun l => A i l * B l j
+
 /-! ### Index helpers -/
 
 /-- `|i − j|` as an index (Toeplitz lookup). -/
@@ -96,7 +112,7 @@ inductive Op : Nat → Nat → Type where
   | sumBatch {n m : Nat} (k : Nat) (o : Op n m) : Op n m
 
 /-- The floating tensors defining an operator, shaped like `representation()`. -/
-def Param (α : Type) : {n m : Nat} → Op n m → Type
+@[reducible] def Param (α : Type) : {n m : Nat} → Op n m → Type
   | _, _, .dense n m => Mat α n m
   | _, _, .diag n => Fin n → α
   | _, _, .constDiag _ => α
@@ -121,13 +137,12 @@ def denote : {n m : Nat} → (o : Op n m) → Param α o → Mat α n m
   | _, _, .constDiag _, θ => fun i j => if i = j then θ else 0
   | _, _, .toeplitz _, θ => fun i j => θ (absDiff i j)
   | _, _, .constMul o, θ => fun i j => denote o θ.1 i j * θ.2
-  | _, _, .matmul a b, θ => Mat.mul (denote a θ.1) (denote b θ.2)
+  | _, _, .matmul a b, θ => mmul (denote a θ.1) (denote b θ.2)
   | _, _, .sum a b, θ => fun i j => denote a θ.1 i j + denote b θ.2 i j
   | _, _, .mul a b, θ => fun i j => denote a θ.1 i j * denote b θ.2 i j
   | _, _, .masked rows cols o, θ => fun i j => denote o θ (rows i) (cols j)
-  | _, _, .interp ql qr li ri o, θ =>
-      let A := tab (denote o θ.1)
-      tab fun i j => sumFin ql fun a => sumFin qr fun b => θ.2.1 i a * A (li i a) (ri j b) * θ.2.2 j b
+  | _, _, .interp ql qr li ri o, θ => fun i j =>
+      sumFin ql fun a => sumFin qr fun b => θ.2.1 i a * denote o θ.1 (li i a) (ri j b) * θ.2.2 j b
   | _, _, .blockDiag _ o, θ => fun i j =>
       if (outerIdx i).1 = (outerIdx j).1 then denote o (θ (outerIdx i)) (innerIdx i) (innerIdx j) else 0
   | _, _, @Op.blockInterleaved n m k o, θ => fun i j =>
@@ -183,7 +198,7 @@ variable {α : Type} [Add α] [Mul α] [Zero α] [Sub α] [One α]
 /-- `sym_toeplitz_derivative_quadratic_form(U, V)`: per column the upper-triangular Toeplitz product
 `Σ_{j ≥ k} u[j-k] v[j]`, the flipped one `Σ_{j+k<n} u[j+k] v[j]`, and `res[0] -= Σ u_j v_j`. -/
 def toeplitzQF {n d : Nat} (U V : Mat α n d) : Fin n → α :=
-  tab1 fun k =>
+  fun k =>
     (sumFin d fun c =>
       (sumFin n fun j => if h : k.1 ≤ j.1 then U ⟨j.1 - k.1, by have := j.2; omega⟩ c * V j c else 0)
       + (sumFin n fun j => if h : j.1 + k.1 < n then U ⟨j.1 + k.1, h⟩ c * V j c else 0))
@@ -191,45 +206,48 @@ def toeplitzQF {n d : Nat} (U V : Mat α n d) : Fin n → α :=
 
 /-- `MaskedLinearOperator._expand`: zeros, then the rows named by the mask receive the tensor. -/
 def expandRows {n r d : Nat} (rows : Fin r → Fin n) (U : Mat α r d) : Mat α n d :=
-  tab fun i c => sumFin r fun q => if rows q = i then U q c else 0
+  fun i c => sumFin r fun q => if rows q = i then U q c else 0
 
 /-- `bdsmm(W_t, U)` for the interpolation matrix `W[i, idx i a] += val i a`: `(Wᵀ U)[p, c]`. -/
 def interpT {n r q d : Nat} (idx : Fin r → Fin q → Fin n) (val : Mat α r q) (U : Mat α r d) : Mat α n d :=
-  tab fun p c => sumFin r fun i => sumFin q fun a => if idx i a = p then val i a * U i c else 0
+  fun p c => sumFin r fun i => sumFin q fun a => if idx i a = p then val i a * U i c else 0
 
 /-- Mirrors `op._bilinear_derivative(U, V)`; `d` = number of vector pairs. -/
 def bilinDeriv : {n m : Nat} → (o : Op n m) → Param α o → {d : Nat} → Mat α n d → Mat α m d → Param α o
-  | _, _, .dense _ _, _, d, U, V => tab fun i j => sumFin d fun c => U i c * V j c
-  | _, _, .diag _, _, d, U, V => tab1 fun i => sumFin d fun c => U i c * V i c
+  | _, _, .dense _ _, _, d, U, V => fun i j => sumFin d fun c => U i c * V j c
+  | _, _, .diag _, _, d, U, V => fun i => sumFin d fun c => U i c * V i c
   | _, _, .constDiag n, _, d, U, V => (sumFin n fun i => sumFin d fun c => U i c * V i c : α)
   | _, _, .toeplitz _, _, _, U, V => toeplitzQF U V
   | _, _, @Op.constMul n _ o, θ, d, U, V =>
-      let BV := Mat.mul (denote o θ.1) V
+      let BV := memoV (mmul (denote o θ.1) V)
       (bilinDeriv o θ.1 (fun i c => U i c * θ.2) V,
-       sumFin n fun i => sumFin d fun c => U i c * BV i c)
+       sumFin n fun i => sumFin d fun c => U i c * getV BV i c)
   | _, _, .matmul a b, θ, _, U, V =>
-      let BV := Mat.mul (denote b θ.2) V
-      let AtU := Mat.mul (Mat.transpose (denote a θ.1)) U
-      (bilinDeriv a θ.1 U BV, bilinDeriv b θ.2 AtU V)
+      let BV := memoV (mmul (denote b θ.2) V)
+      let AtU := memoV (mmul (Mat.transpose (denote a θ.1)) U)
+      (bilinDeriv a θ.1 U (getV BV), bilinDeriv b θ.2 (getV AtU) V)
   | _, _, .sum a b, θ, _, U, V => (bilinDeriv a θ.1 U V, bilinDeriv b θ.2 U V)
   | _, _, @Op.mul n a b, θ, d, U, V =>
-      let A := tab (denote a θ.1)
-      let B := tab (denote b θ.2)
+      let A := memoV (denote a θ.1)
+      let B := memoV (denote b θ.2)
       -- factors viewed as n × (rank * d), rank = n, column index = r * d + c
       let eye : Mat α n n := fun i j => if i = j then 1 else 0
-      (bilinDeriv a θ.1 (d := n * d) (fun i c => U i (innerIdx c) * B i (outerIdx c))
+      (bilinDeriv a θ.1 (d := n * d) (fun i c => U i (innerIdx c) * getV B i (outerIdx c))
                                       (fun j c => V j (innerIdx c) * eye j (outerIdx c)),
-       bilinDeriv b θ.2 (d := n * d) (fun i c => U i (innerIdx c) * A i (outerIdx c))
+       bilinDeriv b θ.2 (d := n * d) (fun i c => U i (innerIdx c) * getV A i (outerIdx c))
                                       (fun j c => V j (innerIdx c) * eye j (outerIdx c)))
-  | _, _, .masked rows cols o, θ, _, U, V => bilinDeriv o θ (expandRows rows U) (expandRows cols V)
+  | _, _, .masked rows cols o, θ, _, U, V =>
+      let EU := memoV (expandRows rows U)
+      let EV := memoV (expandRows cols V)
+      bilinDeriv o θ (getV EU) (getV EV)
   | _, _, @Op.interp _ _ r s ql qr li ri o, θ, d, U, V =>
-      let leftRes := interpT li θ.2.1 U
-      let rightRes := interpT ri θ.2.2 V
-      let KR := Mat.mul (denote o θ.1) rightRes
-      let KtL := Mat.mul (Mat.transpose (denote o θ.1)) leftRes
-      (bilinDeriv o θ.1 leftRes rightRes,
-       (tab fun i a => sumFin d fun c => KR (li i a) c * U i c,
-        tab fun j b => sumFin d fun c => KtL (ri j b) c * V j c))
+      let leftRes := memoV (interpT li θ.2.1 U)
+      let rightRes := memoV (interpT ri θ.2.2 V)
+      let KR := memoV (mmul (denote o θ.1) (getV rightRes))
+      let KtL := memoV (mmul (Mat.transpose (denote o θ.1)) (getV leftRes))
+      (bilinDeriv o θ.1 (getV leftRes) (getV rightRes),
+       (fun i a => sumFin d fun c => getV KR (li i a) c * U i c,
+        fun j b => sumFin d fun c => getV KtL (ri j b) c * V j c))
   | _, _, .blockDiag _ o, θ, _, U, V => fun b =>
       bilinDeriv o (θ b) (fun i c => U (pairIdx b i) c) (fun j c => V (pairIdx b j) c)
   | _, _, .blockInterleaved _ o, θ, _, U, V => fun b =>
